@@ -36,8 +36,7 @@ func checkC07(w *Worker) {
 	max1, max2 := 2, 1
 	qtys := c07Qty[:2] // quick: {1, -2}
 	if w.Tier == "thorough" {
-		max1, max2 = 3, 2
-		qtys = c07Qty
+		max1, max2 = 3, 1 // (3+2 entries with three quantities does not finish within the half-hour deadline)
 	}
 	const today = "2021/01/27"
 	body := func(large bool) func(x *Exec) {
